@@ -13,7 +13,16 @@
              "0" 0   "u" unit/2 (< bump)   "U" unit (= bump)   "2" 2 unit   "4" 4 unit
              "a" c-delta-unit   "b" c-delta   "h" c/2   "c" c   "d" c+unit   "e" c+delta
    A label is offered only when its value respects the contract of the call
-   (0 < s <= rem;  0 <= d <= c + delta). *)
+   (0 < s <= rem;  0 <= d <= c + delta).
+
+   Configurations (lengths in the fine unit; unit = 64, bump = delta/10 = 64):
+     FieldPropMC.cfg       steps {64 (< minimum step), 256, 512, 1024} x max_substeps {2,3} x start on/off
+                           boundary, minimum step 128, delta 640; invariants + variant + deadlock + Emit
+     FieldPropMC_8x2/_8x3  step 2048 (8 units of 256) with max_substeps 2 / 3 (the latter: thorough tier)
+     FieldPropMC_live      the same with the liveness property Terminates (thorough tier)
+     FieldPropMC_alt       minimum step 32 < bump (thorough tier)
+     FieldPropMC_mom       probe MomentumAtEndPoint, EXPECTED TO FAIL (finding F-FIELD-1)
+     FieldPropMC_sim       SpecSim for -simulate: random behaviours for replay *)
 EXTENDS FieldProp, TLC, Json
 
 CONSTANTS Steps, MaxSubs, MinSub, Delta, Unit, X0, Starts
